@@ -74,6 +74,9 @@ type Run struct {
 	aborted     bool
 	wg          sync.WaitGroup
 	preemptions int
+	deviations  int
+	runq        []*G
+	visibleOps  int
 	timersFired int
 	parkSeq     int
 	schedLog    []string
